@@ -48,6 +48,7 @@ Definition parse_label (l : list N) : option label :=
   | [27; e; 2] => Some (LInject e MPong)
   | [27; e; _] => Some (LInject e MClose)
   | [28; e; cause] => Some (LEnd e cause)
+  | [29; e; n] => Some (LPermits e n)
   | _ => None
   end.
 
